@@ -11,14 +11,24 @@ cp -f "$VERIF_REPO/go.sum" go.sum 2>/dev/null
 mkdir -p "$VERIF_DIR/bin"
 BIN="$VERIF_DIR/bin/vcheck"
 BUILDARGS=(-tags verif)
-if [ "${1:-}" = "C12" ] || { [ "${1:-}" = "replay" ] && grep -q '"property": "C12"' "${2:-/dev/null}" 2>/dev/null; }; then
+NEEDOV=""
+case "${1:-}" in C12) NEEDOV=must ;; C19) NEEDOV=try ;; replay) grep -q '"property": "C12"' "${2:-/dev/null}" 2>/dev/null && NEEDOV=must; grep -q '"property": "C19"' "${2:-/dev/null}" 2>/dev/null && NEEDOV=try ;; esac
+if [ -n "$NEEDOV" ]; then
   # crash-point check: db/fs is compiled against the os shim through a build overlay generated from the current tree
   OV="$VERIF_DIR/.work/overlay.$$"
   mkdir -p "$OV"
   if ! go run ./cmd/mkoverlay "$VERIF_REPO" "$VERIF_DIR/harness" "$OV" > "$OV/log" 2>&1; then
-    echo "HARNESS-ERROR: overlay generation failed:" >&2; cat "$OV/log" >&2; rm -rf "$OV"; exit 2
+    if [ "$NEEDOV" = must ]; then
+      echo "HARNESS-ERROR: overlay generation failed:" >&2; cat "$OV/log" >&2; rm -rf "$OV"; exit 2
+    fi
+    echo "note: overlay generation failed; C19 runs without file-operation scheduling points" >&2
+  else
+    BUILDARGS=(-tags "verif overlay" -overlay "$OV/overlay.json")
+    if [ "$NEEDOV" = try ] && ! go build "${BUILDARGS[@]}" -o /dev/null ./cmd/vcheck 2>/dev/null; then
+      echo "note: overlay build failed; C19 runs without file-operation scheduling points" >&2
+      BUILDARGS=(-tags verif)
+    fi
   fi
-  BUILDARGS=(-tags "verif overlay" -overlay "$OV/overlay.json")
 fi
 if [ "${1:-}" = "C19" ] || { [ "${1:-}" = "replay" ] && grep -q '"property": "C19"' "${2:-/dev/null}" 2>/dev/null; }; then
   # separate free-running pass under the race detector (needs cgo); if it cannot be built the pass is skipped and said so
